@@ -21,3 +21,5 @@ open SSVerif.Hist
 #print axioms SSVerif.Search.C01_finish_clears_search
 #print axioms SSVerif.Search.C01_hmm_eval_3st_refines
 #print axioms SSVerif.Search.C01_search_checkers_sound
+#print axioms SSVerif.Search.C01_build_lexTreeOK
+#print axioms SSVerif.Search.C01_reachable_WFHist_built
